@@ -68,6 +68,17 @@ fn default_history_size() -> usize {
 
 impl MetricsServer {
     pub fn init(&mut self) -> Result<(), Error> {
+        // both values are handed to the router later, which panics on what it does not accept
+        ensure!(
+            self.api_prefix.starts_with('/') && !self.api_prefix.contains('*'),
+            "metrics.apiPrefix must start with '/' and must not contain '*': {}",
+            self.api_prefix
+        );
+        ensure!(
+            HeaderValue::from_str(&self.cors).is_ok(),
+            "metrics.cors is not a valid header value: {:?}",
+            self.cors
+        );
         if let Some(ui) = &self.ui {
             #[cfg(feature = "embedded-ui")]
             if ui == "<embedded>" {
